@@ -512,6 +512,10 @@ class Gen:
 
         self.emit({"e": "order", "r": r.id, "a": nref(a), "b": nref(b)})
         self.classes.add("explicit-order-edge")
+        if isinstance(b, int) and a != "in" and b not in r.extra.get("to_out", set()) and self.coin(2, 3):
+            # ... and the successor in turn ordered before the region's Output (a chain a -> b -> Output)
+            r.extra.setdefault("to_out", set()).add(b)
+            self.emit({"e": "order", "r": r.id, "a": nref(b), "b": nref("out")})
         return True
 
     # ------------------------------------------------------------------ containers
